@@ -25,6 +25,7 @@ BUDGET = {"quick": 240, "thorough": 2400}
 import dataclasses as _dc
 from typing import Any as _Any
 
+import zoo
 from pyoak.node import ASTNode as _ASTNode, NODE_REGISTRY as _REG
 
 
@@ -77,6 +78,22 @@ def opaque_value_cases(rng, n):
             if fail is None and (r2.payload is not w or r2.kid is not inner or r2.key is not u):
                 fail = "dataclasses.replace(): an untouched init field does not hold the very same object"
             del r, r2
+        # falsy nodes (a node class may define __len__ / __bool__) in single, optional and tuple child fields are copied
+        # like any other node
+        fz = zoo.Un(zoo.Falsy(n=rng.randint(0, 1)))
+        tree = zoo.Tup((fz, zoo.Opt(zoo.Falsy(n=2)), zoo.Falsy(n=3), zoo.Tup(())))
+        dd = tree.duplicate()
+        f2 = None
+        for a, b in zip([tree] + [i.node for i in tree.dfs()], [dd] + [i.node for i in dd.dfs()]):
+            if a is b:
+                f2 = f"duplicate(): the copy shares the original {type(a).__name__} object (falsy child nodes)"
+            elif type(a) is not type(b) or a.content_id != b.content_id or _REG.get(b.id) is not b:
+                f2 = "duplicate(): a copied node differs / is not registered (falsy child nodes)"
+        if f2 is None and (len(list(dd.dfs())) != len(list(tree.dfs())) or not (dd == tree)):
+            f2 = "duplicate() of a tree with falsy children is not == to the original"
+        yield Case("directed:falsy-children", None, None, True, "Tup((Un(Falsy), Opt(Falsy), Falsy, Tup(()))).duplicate()",
+                   oracle_fail=f2, sig="copy|directed|falsy-children")
+        del tree, dd, fz
         yield Case("directed:opaque-values", None, None, True,
                    "Holder(key=<object>, payload=<object>, kid=Holder(key=(<object>, 1), payload=[<object>]), kids=(…)) duplicate / replace",
                    oracle_fail=fail, sig="copy|directed|opaque-values")
